@@ -1,5 +1,6 @@
 import Sourmash.Lemmas.Select
 import Sourmash.Lemmas.Lookup
+import Sourmash.Theorems.C14
 /-! Property C11 — selection keeps exactly the sketches that satisfy the request.
 Property theorems only; helper lemmas live in `Sourmash/Lemmas/Select.lean`.
 `satisfies` (Spec/Select.lean) is the conjunction of the five optional criteria; every theorem is
@@ -117,6 +118,26 @@ theorem sig_delivers_requested_scaled (sel : Selection) (sg : Sig) (sc : Nat)
   · rw [cutAt_scaled, hrt]
 example : scaledForMaxHash (maxHashForScaled 1000) = 1000 := by decide
 
+/-- the round trip of C14 for every requested value `≤ 2^31` (`Sourmash.C14.roundtrip` for `1 ≤ sc`;
+    at `sc = 0` both conversions return 0) -/
+theorem request_roundtrips (sc : Nat) (h31 : sc ≤ 2 ^ 31) : scaledForMaxHash (maxHashForScaled sc) = sc := by
+  rcases Nat.eq_zero_or_pos sc with h | h
+  · subst h; rfl
+  · exact Sourmash.C14.roundtrip sc h h31
+example : (1000 : Nat) ≤ 2 ^ 31 := by decide
+
+/-- `sig_delivers_requested_scaled`, closed with C14's round trip: for every requested scaled value
+    `≤ 2^31` every delivered sketch reports exactly the requested value -/
+theorem sig_delivers_requested_scaled_closed (sel : Selection) (sg : Sig) (sc : Nat)
+    (hs : sel.scaled = some sc) (h31 : sc ≤ 2 ^ 31) :
+    ∀ s ∈ selectSpec sel sg.sketches, s.scaled = sc :=
+  sig_delivers_requested_scaled sel sg sc hs (request_roundtrips sc h31)
+/-- non-vacuity: the request is in range and something is delivered (a scaled-2 sketch, requested at 4) -/
+example : ({ scaled := some 4 } : Selection).scaled = some 4 ∧ (4 : Nat) ≤ 2 ^ 31 ∧
+    (selectSpec { scaled := some 4 }
+      [(⟨21, .dna, 0, maxHashForScaled 2, false, .vec, 42, [1, 2^63], []⟩ : Sketch)]).map (·.scaled) = [4] := by
+  decide
+
 /-- … and holds no hash above the requested ceiling (when it had none above its own) -/
 theorem sig_delivers_below_ceiling (sel : Selection) (sg : Sig) (sc : Nat) (hs : sel.scaled = some sc) :
     ∀ s ∈ selectSpec sel sg.sketches, s.scaled ≠ sc → ∀ h ∈ s.mins, h ≤ maxHashForScaled sc := by
@@ -188,6 +209,23 @@ theorem sig_idempotent (sel : Selection) (sg sg' : Sig)
   show ((selectSpec sel sg.sketches).filter (fun s => satisfies sel s.described)).map (deliver sel)
       = selectSpec sel sg.sketches
   rw [e1, e2]
+
+/-- `sig_idempotent`, closed with C14's round trip: for every request whose scaled value (if any) is
+    `≤ 2^31`, selecting the result of a selection again changes nothing.  (`2^31 < 2^32` also gives the
+    `u32` hypothesis of `sig_exact`.) -/
+theorem sig_idempotent_closed (sel : Selection) (sg sg' : Sig)
+    (hwf : ∀ s ∈ sg.sketches, s.wf) (h31 : ∀ sc, sel.scaled = some sc → sc ≤ 2 ^ 31)
+    (h : sg.select sel = .ok sg') : sg'.select sel = .ok sg' :=
+  sig_idempotent sel sg sg' hwf (fun sc hs => by have := h31 sc hs; omega)
+    (fun sc hs => request_roundtrips sc (h31 sc hs)) h
+/-- non-vacuity: well-formed sketches, a request in range, and the first selection succeeds -/
+example :
+    (∀ s ∈ [(⟨21, .dna, 0, maxHashForScaled 2, false, .vec, 42, [1, 2^63], []⟩ : Sketch)], s.wf) ∧
+    (∀ sc, ({ scaled := some 4 } : Selection).scaled = some sc → sc ≤ 2 ^ 31) ∧
+    (Sig.select { scaled := some 4 } { name := none, filename := none, sketches :=
+        [⟨21, .dna, 0, maxHashForScaled 2, false, .vec, 42, [1, 2^63], []⟩] }).toOption.isSome = true := by
+  refine ⟨by decide, ?_, by decide⟩
+  intro sc h; cases h; decide
 
 /-! ## T-agree -/
 
